@@ -625,7 +625,60 @@ def r17(ctx):
         raise AnalysisBroken('C18.R17: returns of RequestImpl::add not recognised')
 
 
+def r19(ctx):
+    ctx.rule('C18.R19', 'a topic built from the completed template can be taken apart again: StringReplacer::ensureDefault appends '
+             'a missing variable (%circuit, %name) only behind a constant part - on every path to an emplace_back of a variable '
+             'part (index >= 0) the last part is known to be a constant (tested by back().second < 0, or a separator / constant '
+             'was appended just before); two variables in a row give topics like ebusd/Status01bai that match() cannot split',
+             minimum=2)
+    fb = ctx.fb
+    fn = fb.fn('ebusd::StringReplacer::ensureDefault')
+    ctx.touch(fn)
+    sites = {}
+    for c in fn.calls('emplace_back', 'push_back'):
+        v = fn.nodes[c]
+        if 'obj' not in v or not fn.key(v['obj']).endswith('m_parts') or len(v.get('args', [])) < 2:
+            continue
+        idx = fn.val(v['args'][-1])
+        if idx is None:
+            continue
+        sites[c] = 'var' if idx >= 0 else 'const'
+    varsites = [c for c, k in sites.items() if k == 'var']
+    if len(varsites) < 2:
+        raise AnalysisBroken('C18.R19: the variable parts appended by ensureDefault were not recognised')
+    bad = {}
+
+    def on_elem(user, e, path):
+        v = fn.nodes[e]
+        if e in sites:
+            if sites[e] == 'var' and user != 'const':
+                bad.setdefault(e, path)
+            return sites[e]
+        if v['k'] in ('CXXOperatorCallExpr', 'BinaryOperator') and v.get('op') == '=':
+            k = fn.key(e)
+            if 'm_parts[' in k.split('=')[0] or 'm_parts.back()' in k.split('=')[0]:
+                return 'const' if ',#-1}' in k.replace(' ', '') or k.rstrip(')').endswith('#-1}') else user
+        return user
+
+    def on_edge(user, b, j, dnf):
+        if len(dnf) == 1:
+            for a in dnf[0]:
+                k, pol = facts.atom_key(fn, a)
+                if k == '(this.m_parts.back().second < #0)':
+                    return 'const' if pol else 'var'
+        return user
+    ex = Explorer(fn, on_elem=on_elem, on_edge=on_edge)
+    ex.run(fn.entry, 0, '?')
+    for c in sorted(varsites):
+        ctx.ob('C18.R19', fn, c, c not in bad, 'variable part %s appended' % fn.key(fn.nodes[c]['args'][0]),
+               'only behind a constant part: %s' % (c not in bad), witness=ex.describe_path(bad[c]) if c in bad else None)
+
+
 def run(ctx):
+    r19(ctx)
+    import rules.common as _cmc
+    ctx.rule('C18.R18', "a value is compared in the domain of its own type: in the client request sources every comparison (==, !=) of a variable, member, element or call result with an integer constant has the constant inside the value range of the operand's own type, and no variable of type bool is compared with a character or number that is not a constant - RequestImpl::split keeps the quote character that opened an argument in a variable and looks for that character at the end of a token; as a bool it is 1 and never found", minimum=40)
+    _cmc.compare_domain_rule(ctx, 'C18.R18', lambda f: f.relfile.startswith(('src/ebusd/request.', 'src/ebusd/mainloop.', 'src/lib/ebus/stringhelper.', 'src/ebusd/mqtthandler.', 'src/ebusd/network.')), 40)
     r17(ctx)
     r14(ctx)
     r13(ctx)
